@@ -842,12 +842,19 @@ def run(ctx):
         side_checks(ctx, doc, tmp)
         # 5b. the parser as a long-lived object: generate_* calls in any order, repeated, after read() of another file (FactoryParser)
         hr = ctx.check_spec('parser-history', 'FactoryParser', 'MC_FactoryParser_%s.cfg' % ctx.tier, workers=4, need_actions=('Gen', 'Read'))
-        ctx.expect_refuted('parser-consumes-live-config', 'FactoryParser', 'MC_FactoryParser_consuming_refuted.cfg', 'GenerateEqualsFresh', workers=2)
-        ctx.expect_refuted('parser-prebuilds-absent-section', 'FactoryParser', 'MC_FactoryParser_prebuild_refuted.cfg', 'AbsentSectionIsDefaultArgument', workers=2)
-        walks, hfiles = hr.tagged('WALK'), hr.tagged('FILES')
-        if not walks or not hfiles:
-            raise Machinery('parser history: no walks / files exported')
-        nw, nc = PZ.run_history(ctx, walks, hfiles[0], tmp, xsec_dir(tmp), 140 if q else 1500, random.Random(ctx.seed * 1009 + 151))
+        # (the two expected-counterexample variants run while the walks are replayed)
+        from concurrent.futures import ThreadPoolExecutor
+        with ThreadPoolExecutor(2) as pool:
+            refuted = [pool.submit(ctx.expect_refuted, 'parser-consumes-live-config', 'FactoryParser', 'MC_FactoryParser_consuming_refuted.cfg',
+                                   'GenerateEqualsFresh', workers=1),
+                       pool.submit(ctx.expect_refuted, 'parser-prebuilds-absent-section', 'FactoryParser', 'MC_FactoryParser_prebuild_refuted.cfg',
+                                   'AbsentSectionIsDefaultArgument', workers=1)]
+            walks, hfiles = hr.tagged('WALK'), hr.tagged('FILES')
+            if not walks or not hfiles:
+                raise Machinery('parser history: no walks / files exported')
+            nw, nc = PZ.run_history(ctx, walks, hfiles[0], tmp, xsec_dir(tmp), 110 if q else 1500, random.Random(ctx.seed * 1009 + 151))
+            for fu in refuted:
+                fu.result()
         ctx.note('%d of %d TLC-generated walks on one long-lived ParameterParser (%d generate_* calls, each compared with a fresh parser of the same file; '
                  'the parser configuration compared with the file as read after every step)' % (nw, len(walks), nc))
         # 6. assembled models through the CLI
